@@ -19,10 +19,22 @@ def feed_run(tier, seed, q=800, t=20000):
     return {"mode": "pricefeed", "args": ["--seed", seed, "--count", _counts(tier, q, t)]}
 
 
-def world_runs(tier, seed, q=150, t=1200, tn=8):
+def world_runs(tier, seed, q=240, t=1200, tn=10, qn=4):
     if tier == "quick":
-        return [{"mode": "world", "args": ["--seed", seed, "--count", q]}]
+        return [{"mode": "world", "args": ["--seed", seed * 100 + i, "--count", q // qn]} for i in range(qn)]
     return [{"mode": "world", "args": ["--seed", seed * 1000 + i, "--count", t]} for i in range(tn)]
+
+
+def fault_runs(tier, seed, q=60, t=600, tn=6):
+    if tier == "quick":
+        return [{"mode": "fault", "args": ["--seed", seed * 100 + 50 + i, "--count", q // 2]} for i in range(2)]
+    return [{"mode": "fault", "args": ["--seed", seed * 1000 + 500 + i, "--count", t]} for i in range(tn)]
+
+
+def twin_runs(tier, seed, q=160, t=1000, tn=8):
+    if tier == "quick":
+        return [{"mode": "twin", "args": ["--seed", seed * 100 + 70 + i, "--count", q // 4]} for i in range(4)]
+    return [{"mode": "twin", "args": ["--seed", seed * 1000 + 700 + i, "--count", t]} for i in range(tn)]
 
 
 WORLD_RULE = ("world histories on the real contracts in cw-multi-test: random deployment (native / cw20 collateral, 6 / 9 decimals, mock / real price feed, "
@@ -93,7 +105,7 @@ PROPS = {
     },
     "C08": {
         "lean_modules": ["Perp.Props.Dispatch"],
-        "runs": lambda tier, seed: world_runs(tier, seed),
+        "runs": lambda tier, seed: world_runs(tier, seed) + fault_runs(tier, seed),
         "rule": WORLD_RULE, "assumptions": WORLD_ASSUMPTIONS,
     },
     "C09": {
@@ -115,5 +127,51 @@ PROPS = {
         "lean_modules": ["Perp.Props.VammGuards"],
         "runs": lambda tier, seed: world_runs(tier, seed) + [vamm_run(tier, seed, 600, 10000)],
         "rule": WORLD_RULE, "assumptions": WORLD_ASSUMPTIONS,
+    },
+    "C02": {
+        "lean_modules": ["Perp.Props.Dispatch"],
+        "runs": lambda tier, seed: world_runs(tier, seed),
+        "rule": WORLD_RULE, "assumptions": WORLD_ASSUMPTIONS,
+    },
+    "C04": {
+        "lean_modules": ["Perp.Props.Dispatch"],
+        "runs": lambda tier, seed: world_runs(tier, seed),
+        "rule": WORLD_RULE, "assumptions": WORLD_ASSUMPTIONS,
+    },
+    "C05": {
+        "lean_modules": ["Perp.Props.Dispatch"],
+        "runs": lambda tier, seed: world_runs(tier, seed),
+        "rule": WORLD_RULE, "assumptions": WORLD_ASSUMPTIONS,
+    },
+    "C06": {
+        "lean_modules": ["Perp.Props.Dispatch"],
+        "runs": lambda tier, seed: world_runs(tier, seed, q=1200, qn=8),
+        "rule": WORLD_RULE, "assumptions": WORLD_ASSUMPTIONS,
+    },
+    "C07": {
+        "lean_modules": ["Perp.Props.Dispatch"],
+        "runs": lambda tier, seed: world_runs(tier, seed, q=1200, qn=8),
+        "rule": WORLD_RULE, "assumptions": WORLD_ASSUMPTIONS,
+    },
+    "C10": {
+        "lean_modules": ["Perp.Props.Dispatch"],
+        "runs": lambda tier, seed: world_runs(tier, seed),
+        "rule": WORLD_RULE, "assumptions": WORLD_ASSUMPTIONS,
+    },
+    "C12": {
+        "lean_modules": ["Perp.Props.Dispatch"],
+        "runs": lambda tier, seed: world_runs(tier, seed),
+        "rule": WORLD_RULE, "assumptions": WORLD_ASSUMPTIONS,
+    },
+    "C16": {
+        "lean_modules": ["Perp.Props.Dispatch"],
+        "runs": lambda tier, seed: world_runs(tier, seed),
+        "rule": WORLD_RULE, "assumptions": WORLD_ASSUMPTIONS,
+    },
+    "C13": {
+        "lean_modules": ["Perp.Props.Dispatch"],
+        "runs": lambda tier, seed: twin_runs(tier, seed),
+        "rule": WORLD_RULE + " || twin mode: two deployments identical except the collateral (cw20 vs native, 6 decimals) driven in lock-step; each native call attaches exactly what the cw20 run pulled from the caller; after every operation positions, vAMM state, engine state and per-account balance deltas are compared",
+        "assumptions": WORLD_ASSUMPTIONS,
     },
 }
